@@ -69,11 +69,15 @@ def gen_case(rnd, prop, tier):
         shape = [sizes[attrs.index(a)] for a in cl]
         pots.append(gen.gen_potential(rnd, shape, scale, ninf, [witness[a] for a in cl]))
     method = rnd.choice(['round', 'round', 'sample'])
-    big = [100000] + ([1000000] if tier == 'thorough' else [])
-    rows = rnd.choice([None, 1, 2, 7, 50, 1000, 1000] + (big if rnd.random() < 0.15 else [1000]))
+    # large row counts are mostly not round numbers (a count just above a power of two, a count not divisible by small block counts)
+    big = [100000, 262145, 300001, 600001] + ([1000000, 524289, 999999] if tier == 'thorough' else [])
+    rows = rnd.choice([None, 1, 2, 7, 50, 1000, 1000] + ([rnd.choice(big)] if rnd.random() < 0.2 else [1000]))
     total = rnd.choice([1.0, 3.7, 10.0, 123.5, 1000.0]) if rows is None else rnd.choice([0.9, 1.0, 123.5, 1e6])
     if rows is None and rnd.random() < 0.1:
         total = 20000.9
+    if rows is None and rnd.random() < 0.12:
+        # the default row count is the integer part of the total: totals a hair below / above an integer (estimated totals are like that)
+        total = rnd.choice([4.0, 42.0, 1000.0]) + rnd.choice([-1.0, 1.0]) * 10.0 ** -rnd.choice([7, 8, 10, 12])
     elim = a_bp.gen_elim(rnd, attrs)      # None / permutation / int mode (stochastic orders drawn from the SimRNG)
     if isinstance(elim, dict):
         elim['int'] = rnd.choice([2, 5, 10])
